@@ -418,6 +418,123 @@ def vector_entry_points(m, degree, periodic, breaks, uniform_flag, ncells, T, re
             res['inconclusive'].append('unknown entry-point query')
 
 
+# ----------------------------------------------------------------------------- symbolic break points (thorough)
+def work_symknots(item):
+    """kernels called directly (make_knots + nu_* functions) with *symbolic break points*: all of them for degree <= 2,
+    one interior break point (the others from a rational family) above"""
+    degree, periodic, ncells, which, family = item
+    res = H.worker_result()
+    m = numenv.mods()
+    numenv.enable()
+    symx.set_bv(None)
+    base = breaks_family(family, ncells)
+    st = {}
+
+    def body(ctx):
+        bs = []
+        for i in range(ncells + 1):
+            if which == 'all' or which == i:
+                v = z3.Real('b%d' % i)
+                bs.append(SReal(v))
+            else:
+                bs.append(K(base[i]))
+        for i in range(ncells):
+            ctx.assume(toreal(zt(bs[i])) < toreal(zt(bs[i + 1])))
+        arr = np.empty(ncells + 1, dtype=object)
+        for i, b in enumerate(bs):
+            arr[i] = b
+        knots = m['spl'].make_knots(arr, degree, periodic)
+        x = SReal(z3.Real('x'))
+        ctx.assume(z3.And(toreal(zt(x)) >= toreal(zt(bs[0])), toreal(zt(x)) <= toreal(zt(bs[-1]))))
+        n = ncells + degree
+        cs = [SReal(z3.Real('c%d' % j)) for j in range(n)]
+        if periodic:
+            for i in range(degree):
+                cs[ncells + i] = cs[i]
+        carr = np.empty(n, dtype=object)
+        for j, c in enumerate(cs):
+            carr[j] = c
+        out = {}
+        for der in (0, 1):
+            out[der] = m['sef'].nu_eval_spline_1d_scalar(x, knots, degree, carr, der)
+        span = m['sef'].nu_find_span(knots, degree, x)
+        vals = np.empty(degree + 1, dtype=object)
+        m['sef'].nu_basis_funs(knots, degree, x, span, vals)
+        st.update(bs=bs, x=x, cs=cs)
+        return out, list(vals), span
+
+    for ctx, (kind, val) in symx.explore(body, timeout_ms=20000, index_cap=64):
+        if kind != 'ok':
+            if kind == 'abort' and not val.inconclusive:
+                continue
+            res['obligations'] += 1
+            res['inconclusive'].append('symbolic knots: %s %r %r' % (kind, val, item))
+            continue
+        out, vals, span = val
+        bs, x, cs = st['bs'], st['x'], st['cs']
+        T = SO.math_knots(bs, degree, periodic)
+        # the cell the path confines x to
+        lo, hi = degree, len(T) - degree - 2
+        cell = None
+        for k in range(lo, hi + 1):
+            inside = z3.And(toreal(zt(x)) >= toreal(zt(T[k])), (toreal(zt(x)) <= toreal(zt(T[k + 1]))) if k == hi else (toreal(zt(x)) < toreal(zt(T[k + 1]))))
+            if ctx.check(z3.Not(inside)) == 'unsat':
+                cell = k
+                break
+        if cell is None:
+            res['inconclusive'].append('path does not fix the cell (symbolic knots) %r' % (item,))
+            continue
+        cvars = []
+        seen = set()
+        for c in cs:
+            if c.t.decl().name() not in seen:
+                seen.add(c.t.decl().name())
+                cvars.append(c.t)
+        for der in (0, 1):
+            B = SO.cell_basis(T, degree, cell, x, der)
+            acc = K(0)
+            for c, b in zip(cs, B):
+                if not (isinstance(b, int) and b == 0):
+                    acc = acc + c * b
+            diff = toreal(zt(out[der])) - toreal(zt(acc))
+            res['obligations'] += 1
+            if symx.lin_degree(diff, seen) is None:
+                res['inconclusive'].append('not linear in the coefficients (symbolic knots)')
+                continue
+            verdict = 'unsat'
+            for cname, ct in symx.coefficient_terms(diff, cvars).items():
+                if z3.is_rational_value(ct) and ct.numerator_as_long() == 0:
+                    continue
+                r, mm = decide(ctx, ct != 0, res, 'symknots')
+                if r == 'sat':
+                    verdict = 'sat'
+                    bv = [str(symx.model_value(mm, b)) for b in bs]
+                    res['violations'].append(('eval1d:symbolic_knots', 'degree %d %s: code differs from Cox-de Boor for break points %s at x=%s (der %d)' % (
+                        degree, 'periodic' if periodic else 'clamped', bv, symx.model_value(mm, x), der), dict(kind='symknots', item=[str(i) for i in item], breaks=bv)))
+                    break
+                if r != 'unsat':
+                    verdict = 'unknown'
+            if verdict == 'unsat':
+                res['discharged'] += 1
+            elif verdict == 'unknown':
+                res['inconclusive'].append('unknown (symbolic knots) %r der=%d' % (item, der))
+        res['obligations'] += 1
+        r, mm = decide(ctx, z3.Or(z3.Sum([toreal(zt(v)) for v in vals]) != 1, z3.Or([toreal(zt(v)) < 0 for v in vals])), res, 'symknots basis')
+        if r == 'unsat':
+            res['discharged'] += 1
+            res['nontrivial'].append('symknots|%r|%d' % (item, cell))
+            if len(res['samples']) < 1:
+                res['samples'].append(dict(part='symbolic break points', config=[str(i) for i in item], cell=cell))
+        elif r == 'sat':
+            res['violations'].append(('basis:symbolic_knots', 'basis negative or not summing to one for some break points (degree %d)' % degree, dict(kind='symknots', item=[str(i) for i in item])))
+        else:
+            res['inconclusive'].append('unknown basis query (symbolic knots) %r' % (item,))
+    numenv.disable()
+    res['stats'] = symx.GLOBAL.as_dict()
+    symx.GLOBAL.__init__()
+    return res
+
+
 # ----------------------------------------------------------------------------- 2-D work item
 def work_2d(item):
     (d1, per1, fam1, n1), (d2, per2, fam2, n2), path, ders, canary = item
@@ -701,6 +818,25 @@ def main():
     for r in H.pmap(work_2d, c2, run.args.jobs):
         sub += r.get('sub_rounding', 0)
         run.merge(r)
+    if run.tier == 'thorough':
+        sk = []
+        for per in (False, True):
+            for n in (1, 2, 3):
+                if per and n <= 1:
+                    continue
+                sk.append((1, per, n, 'all', 'graded'))
+                if not (per and n <= 2):
+                    sk.append((2, per, n, 'all', 'graded'))
+        for n in (1, 2):
+            sk.append((3, False, n, 'all', 'graded'))
+        for per in (False, True):
+            for k in (1, 2, 3):
+                sk.append((3, per, 4, k, 'irregular'))
+        for k in (1, 2, 4):
+            sk.append((4, False, 5, k, 'irregular'))
+        for r in H.pmap(work_symknots, sk, run.args.jobs):
+            run.merge(r)
+        run.sections['symbolic_break_point_configs'] = len(sk)
     for cn in CANARIES:
         hit = caught.get(cn[0], False)
         run.canaries.append(dict(name=cn[0], detected=hit))
@@ -715,7 +851,7 @@ def main():
     run.bounds = dict(quick='degrees 1-5, 3 knot families, cells<=6, uniform-cubic fast path cells 1,2,5; 2-D three configurations',
                       thorough='1-D degrees 1-10, 5 knot families, cells in {1,2,3,d+1,8}; 2-D degrees 1-5 x 1-5', this_run=run.tier)
     run.outside = ['IEEE-754 rounding (floats are exact reals here; in particular int((x-xmin)/dx) one ulp inside a cell edge)',
-                   'knot vectors other than the listed rational families', 'symbolic break points']
+                   'knot vectors other than the listed rational families (quick); thorough adds, through the kernels, all break points symbolic for degrees 1-2 (<= 3 cells) and degree 3 (<= 2 cells, clamped), and one symbolic interior break point for degree 3 (both boundaries) and degree 4 (clamped)']
     run.assumptions = ['exact real arithmetic stands in for doubles', 'np.around(x, 15) is the identity in exact arithmetic']
     run.finish(
         explanation='Real kernels executed on z3 Real proxies for x (,y) and all coefficients with exact rational knots; the span '
